@@ -125,7 +125,7 @@ def cases(tier, seed):
                 if n == 5 and (idx + U.SCHEMAS.index(schema)) % 3 != seed % 3:
                     continue
                 yield {"kind": "shape", "n": n, "idx": idx, "schema": schema, "seed": seed}
-    nrand = 12000 if tier == "quick" else 280000
+    nrand = 40000 if tier == "quick" else 280000
     for i in range(nrand):
         yield {"kind": "random", "i": i, "seed": seed}
 
